@@ -238,38 +238,49 @@ def grep_gate():
 def prepare(prop, drivers=(), targets=None, model_targets=None, translators=()):
     """Everything a check needs before running cases.  Returns dict with build status.
     model_targets: the Model/Gen .vo files the drivers are extracted from (default: all);
-    targets: the Proofs .vo files Props/<prop>.v requires (default: all)."""
+    targets: the Proofs .vo files Props/<prop>.v requires (default: all).
+    The lock covers only the shared `make` steps; extraction (own directory per driver) and the
+    compilation of Props/<prop>.v run outside it so that concurrent checks do not wait on each other."""
     st = {"regen": [], "make_ok": False, "make_error": None, "drivers": {}, "props": None, "gate": []}
+    models_ok = False
     with lock():
         try:
             st["regen"] = regen(list(translators))
         except Exception as e:  # translator fails closed
             st["make_error"] = {"stage": "translator", "msg": str(e), "file": None, "line": None}
-        # models + extraction first (they do not depend on proofs)
+        # models first (they do not depend on proofs)
         try:
             if model_targets is None:
                 model_targets = (["Model/%s" % os.path.basename(p) + "o" for p in glob.glob(os.path.join(COQ, "Model", "*.v"))]
                                  + ["Gen/%s" % os.path.basename(p) + "o" for p in glob.glob(os.path.join(COQ, "Gen", "*.v"))])
             if model_targets:
                 make(model_targets)
-            for d in drivers:
-                st["drivers"][d] = extract(d)
+            models_ok = True
         except BuildError as e:
             if st["make_error"] is None:
                 st["make_error"] = {"stage": e.stage, "msg": e.msg, "file": e.file, "line": e.line}
-            return st
-        try:
-            if targets is None:
-                make()
-            elif targets:
-                make(list(targets))
-            st["make_ok"] = True
-        except BuildError as e:
-            if st["make_error"] is None:
-                st["make_error"] = {"stage": e.stage, "msg": e.msg, "file": e.file, "line": e.line}
-        st["gate"] = grep_gate()
-        if st["make_ok"]:
-            st["props"] = check_props(prop)
+        if models_ok:
+            try:
+                if targets is None:
+                    make()
+                elif targets:
+                    make(list(targets))
+                st["make_ok"] = True
+            except BuildError as e:
+                if st["make_error"] is None:
+                    st["make_error"] = {"stage": e.stage, "msg": e.msg, "file": e.file, "line": e.line}
+    if not models_ok:
+        return st
+    try:
+        for d in drivers:
+            st["drivers"][d] = extract(d)
+    except BuildError as e:
+        if st["make_error"] is None:
+            st["make_error"] = {"stage": e.stage, "msg": e.msg, "file": e.file, "line": e.line}
+        return st
+    st["gate"] = grep_gate()
+    if st["make_ok"]:
+        st["props"] = check_props(prop)
     return st
 
 
